@@ -1,3 +1,50 @@
+(** C15 — reaction-network store stays consistent under every history of edits.
+    Statements only; every proof is [exact <lemma of proof/C15_Proof.v>]. *)
+From stdpp Require Import gmap strings sets pretty.
 From SK Require Import model.C15_Model proof.C15_Proof.
-Theorem C15_stub : empty_net = empty_net. Proof. exact stub. Qed.
-Print Assumptions C15_stub.
+Local Open Scope string_scope.
+
+(** ** 1. The store invariant *)
+
+(** What [Inv] says, written out: both hand-maintained indices list exactly the
+    producing / consuming reactions, the species set is exactly the occurring
+    species plus explicitly kept ones, labels only for present species, the
+    insertion-order list is a duplicate-free enumeration of the keys, no stored
+    reaction is empty or has an empty rule name. *)
+Theorem C15_inv_meaning : forall s : net,
+  Inv s <->
+  (forall x e, e ∈ default ∅ (s_in s !! x) <-> exists rx, edges s !! e = Some rx /\ x ∈ dom (r_rhs rx)) /\
+  (forall x e, e ∈ default ∅ (s_out s !! x) <-> exists rx, edges s !! e = Some rx /\ x ∈ dom (r_lhs rx)) /\
+  (forall x, x ∈ species s <->
+     (exists e rx, edges s !! e = Some rx /\ x ∈ rxn_species rx) \/ (x ∈ kept s /\ x ∈ species s)) /\
+  dom (mol s) ⊆ species s /\
+  NoDup (order s) /\ (forall e, e ∈ order s <-> is_Some (edges s !! e)) /\
+  (forall e rx, edges s !! e = Some rx -> rxn_empty rx = false /\ r_rule rx <> "").
+Proof. exact Inv_unfold. Qed.
+Print Assumptions C15_inv_meaning.
+
+Theorem C15_inv_init : Inv empty_net.
+Proof. exact Inv_init. Qed.
+Print Assumptions C15_inv_init.
+
+(** every operation, every outcome (including the error outcomes), any world *)
+Theorem C15_inv_step : forall (w : world) (o : op), Forall Inv w -> Forall Inv (step w o).1.
+Proof. exact step_Inv. Qed.
+Print Assumptions C15_inv_step.
+
+Theorem C15_inv_reachable : forall (n : nat) (ops : list op),
+  Forall Inv (fold_left (fun w o => (step w o).1) ops (init_world n)).
+Proof. exact reachable_Inv. Qed.
+Print Assumptions C15_inv_reachable.
+
+(** copy / merge independence: an operation changes at most the network it
+    targets ([OCopy i j]: only [j]; [OMerge i j]: only [i]) *)
+Theorem C15_frame : forall (w : world) (o : op) (k : nat),
+  k <> match o with
+       | OAdd i _ _ _ _ | ORemoveRxn i _ | ORemoveSpecies i _ _ | OMerge i _ _
+       | OAssignMol i _ _ | OSetMolMap i _ _ _ => i
+       | OCopy _ j => j
+       end ->
+  getn (step w o).1 k = getn w k.
+Proof. exact step_frame. Qed.
+Print Assumptions C15_frame.
